@@ -42,7 +42,7 @@ m = {
     ],
     "checks": checks,
     "not_applicable": na,
-    "notes": "See DESIGN.md. fix: commits in /repo repair defects F1-F10 (known_findings.json lists them as fixed; none open).",
+    "notes": "See DESIGN.md. fix: commits in /repo repair defects F1-F11 (known_findings.json lists them as fixed; none open).",
 }
 json.dump(m, open(os.path.join(ROOT, "MANIFEST.json"), "w"), indent=1)
 print("claimed:", [c["property_id"] for c in checks])
